@@ -258,3 +258,9 @@ example (perms : List (List Nat)) (p : List Nat) (hp : âˆ€ q âˆˆ perms ++ [p], â
           (reach cEx true [1] [[1], [2], [3]] [[1], [5]] [] (perms ++ [p])).w :=
   C17_ascent_run cEx cEx_setup true [1] (by simp) _ _ cEx_init.1 cEx_init.2.1 cEx_init.2.2 perms p hp
 example : CfgOk cEx := cEx_setup.cfgOk
+/-- bookkeeping of one realisation on integers: tolerance 1, two consecutive hits needed, `max_iter = 6` -/
+example : ((runReal (1 : Int) 1 1 6 (-100) [-9, -5, -5, -5, -5, -5]).rows.map (fun r => (r.1, r.2.1, r.2.2)))
+    = [(3, -5, true), (2, -5, false), (1, -5, false), (0, -9, false)] := by decide
+example : (nonIsolates 3 [[0, 1]]) = [0, 1] âˆ§
+    ({ N := 3, K := 1, D := 2, edges := [[0, 1]], A := [1], minv := 0, maxv := none, eps := 0, rtol := 1,
+       normU := false } : Cfg Int).isIso 2 = true := by decide
